@@ -349,7 +349,7 @@ JOBS = [
 # ---- B2 jobs ---------------------------------------------------------------------------------------
 B2JOBS = [
     dict(name='c16_tiling', mode='int', functions=['discard_before', 'discard_after'],
-         fragments=[f for f in sorted(FRAGMENTS)], property_file='specs/C16.smt2', props=['C16', 'C04'],
+         fragments=[f for f in sorted(FRAGMENTS) if f.startswith('mpi_')], property_file='specs/C16.smt2', props=['C16', 'C04'],
          assumptions=['world size and rank are non-negative int values with rank < world (MPI_Comm_rank/MPI_Comm_size contract)']),
 ]
 
@@ -363,7 +363,7 @@ B2JOBS.append(dict(name='result_formulas', mode='real', functions=['mc_result_va
 
 NATIVEJOBS = []
 
-REPLAYS = {'c16_tiling': dict(cpp='c16', link_fragments=sorted(FRAGMENTS)),
+REPLAYS = {'c16_tiling': dict(cpp='c16', link_fragments=[f for f in sorted(FRAGMENTS) if f.startswith('mpi_')]),
            'invoke_nodist': 'invoke', 'invoke_dist': 'invoke',
            'refine_weights': 'refine_weights', 'result_formulas': 'result', 'callback_decision': 'callback', 'weighted_with_variance': 'callback', 'chkpt_rollback': 'chkpt', 'chkpt_add': 'chkpt', 'chkpt_generator': 'chkpt',
            'discrete_ctor': 'discrete', 'discrete_call': 'discrete', 'discrete_select': 'discrete', 'partial_sum': 'discrete'}
